@@ -13,6 +13,7 @@ package filterstorage
 
 import (
 	"context"
+	"fmt"
 	"math/rand"
 	"net/netip"
 	"testing"
@@ -63,9 +64,9 @@ func TestVerifC02Flt(t *testing.T) {
 			BlockingMode: c02BlockingMode(c), FilteredResponseTTL: time.Duration(c.K.TTL) * time.Second,
 			EDEEnabled: true,
 		})
-		if err != nil {
-			t.Fatal(err)
-		}
+		// every (mode, TTL >= 0) of a profile is a valid configuration: a refusal to build its message
+		// constructor is an observation about the code (recorded as an error of the request stage)
+		consErr := err
 		ctx, cancel := context.WithTimeout(context.Background(), 10*time.Second)
 		flt := w.strg.ForConfig(ctx, c.Conf)
 		req := &dns.Msg{}
@@ -75,8 +76,14 @@ func TestVerifC02Flt(t *testing.T) {
 			req.SetEdns0(1232, false)
 		}
 		client := netip.AddrFrom4([4]byte{192, 0, 2, byte(1 + c.ID%200)})
-		r, ferr := flt.FilterRequest(ctx, &filter.Request{DNS: req, Messages: msgs, RemoteIP: client,
-			ClientName: "c02 device", Host: c.K.Host, QType: uint16(c.K.QType), QClass: dns.ClassINET})
+		var r filter.Result
+		var ferr error
+		if consErr != nil {
+			ferr = fmt.Errorf("message constructor of the profile: %w", consErr)
+		} else {
+			r, ferr = flt.FilterRequest(ctx, &filter.Request{DNS: req, Messages: msgs, RemoteIP: client,
+				ClientName: "c02 device", Host: c.K.Host, QType: uint16(c.K.QType), QClass: dns.ClassINET})
+		}
 		ev := c02Event{H: "flt", ID: c.ID, V: c.V, Mode: c.Mode, QT: c.QT, Ups: c.Ups, K: c.K, Msg: c02EmptyMsg()}
 		ev.Req = c02AbsResult(&c.K, r, ferr, false)
 		ups := c02UpsAnswer(c, req)
